@@ -156,7 +156,11 @@ class C17(core.Prop):
             dflags = [t for t in dflags if t not in drop]
             return {'kind': 'files', 'frame': fr, 'fmt': rng.choice(['csv', 'parquet']), 'rex': rng.random() < 0.4,
                     'vflags': vflags, 'dflags': dflags, 'ofields': ofields, 'pseed': rng.randrange(10 ** 6), 'subprocess': False}
-        return {'kind': 'files', 'frame': fr, 'fmt': rng.choice(['csv', 'parquet']), 'rex': rng.random() < 0.4,
+        null_perturb = rng.random() < 0.3
+        if null_perturb and not any(t in vflags for t in ('-t', '--type_checking')):
+            vflags = vflags + [rng.choice(['-t', '--type_checking']), rng.choice(['strict', 'strict', 'sloppy'])]
+        return {'kind': 'files', 'frame': fr, 'fmt': rng.choice(['csv', 'csv', 'parquet']) if null_perturb else rng.choice(['csv', 'parquet']),
+                'rex': rng.random() < 0.4, 'null_perturb': null_perturb,
                 'vflags': vflags, 'dflags': dflags, 'pseed': rng.randrange(10 ** 6), 'subprocess': False}
 
     def nontrivial_key(self, case):
@@ -260,6 +264,13 @@ class C17(core.Prop):
                     break
                 col = rng.choice(fr2['cols'])
                 col['cells'][rng.randrange(fr2['nrows'])] = rng.choice(cx.gen_cells(rng, col['fam'], 3))
+            if case.get('null_perturb') and fr2['nrows']:
+                # a missing value in a column that had none (a CSV integer column then loads as whole-number reals:
+                # strict and sloppy type checking part ways)
+                for col in fr2['cols']:
+                    if col['fam'] in ('int64', 'Int64', 'bool') and rng.random() < 0.8:
+                        col['fam'] = {'int64': 'Int64', 'bool': 'boolean'}.get(col['fam'], col['fam'])
+                        col['cells'][rng.randrange(fr2['nrows'])] = None
             inp2 = 'in2.' + ext
             try:
                 self._write(fr2, inp2)
